@@ -16,7 +16,7 @@ import (
 
 func init() {
 	register(&Check{ID: "C19", Level: "exploration",
-		Rule: "keys with a 16 s lifetime; at age 12.3 s (inside the last quarter) a burst of N in {1, 8, 64, 200} concurrent hits over several listeners while the upstream answers refreshes after 1.5 s (success) or fails them (connection closed / silent); probes after the refresh; " +
+		Rule: "keys with a 16 s lifetime; at age 12.3 s (inside the last quarter) a burst of N in {1, 8, 64, 200} concurrent hits over several listeners while the upstream answers refreshes after 1.5 s (success) or fails them (connection closed / silent / truncated reply); a 4.5 s refresh with a second burst; 48 questions entering their window together; keys belong to clients of two ip-marker groups; probes after the refresh; " +
 			"one evaluation = one hit/probe response judged; distinct non-trivial = distinct (burst size, refresh outcome, phase: burst-hit / after-refresh / after-failed-refresh) combinations observed",
 		Run: runC19})
 }
